@@ -38,6 +38,7 @@ func (e *Engine) RunRoot(fn *ssa.Function) (err error) {
 	e.resetSymbolic()
 	e.rootKey = shortKey(funcKey(fn))
 	e.rootContract = e.contractFor(fn)
+	e.noteRootBudget()
 	e.rootInputs = nil
 	e.registerReplayTarget(fn, e.modDir)
 	e.funcsTouched[funcKey(fn)] = true
